@@ -255,9 +255,9 @@ def main(tier: str, seed: int) -> int:
             r2 = tlc.mc("MC_Acl", cfg="MC_AclWide.cfg", coverage=False, timeout=1500)
             if not r2["ok"]:
                 chk.violation({"module": "MC_Acl/Wide", "clause": str(r2["violation"])}, {"tlc": r2["output_tail"]})
-            chk.add_mc("MC_AclWide(NPos=2, wide product domain 720 rules x fill, 144 packets)", r2)
-            if r2["ok"] and r2["distinct"] != 2 * 721**2:
-                raise tlc.TLCError(f"vacuous model: MC_AclWide found {r2['distinct']} lists, expected {2 * 721**2}")
+            chk.add_mc("MC_AclWide(NPos=2, wide product domain 360 match shapes x fill, 144 packets)", r2)
+            if r2["ok"] and r2["distinct"] != 2 * 361**2:
+                raise tlc.TLCError(f"vacuous model: MC_AclWide found {r2['distinct']} lists, expected {2 * 361**2}")
     # 2. behaviours of the model -> stimuli through the three doors, two classes each
     nbeh = 36 if quick else 400
     behs, info = tlc.simulate("MC_Acl", cfg="MC_AclSim.cfg", num=nbeh, depth=14 if quick else 18, seed=seed + 1, timeout=1500)
